@@ -130,9 +130,20 @@ def check_theorems(pid, work):
     return names, discharged, axioms, out[-3000:]
 
 
+def big_stack():
+    """coqc elaborates the case literals recursively: a long history (volume cases) needs more than the
+    default 8 MB stack.  Raise the soft limit to the hard limit for the evaluator only."""
+    try:
+        import resource
+        soft, hard = resource.getrlimit(resource.RLIMIT_STACK)
+        resource.setrlimit(resource.RLIMIT_STACK, (hard, hard))
+    except Exception:
+        pass
+
+
 def coqc_eval(vfile):
     t0 = time.time()
-    r = run(["timeout", "3000", "coqc", "-R", COQ, "Tab", vfile], cwd=os.path.dirname(vfile))
+    r = run(["timeout", "3000", "coqc", "-R", COQ, "Tab", vfile], cwd=os.path.dirname(vfile), preexec_fn=big_stack)
     return r.returncode, r.stdout, time.time() - t0
 
 
